@@ -570,6 +570,38 @@ def c05_gpg(ctx, r, quick):
                         ctx.violation('spec', 'a changed signed byte was not detected', {'position': i, 'text': t})
                     rejected += (not ok)
                 ctx.cov['engines'].setdefault('pgp:real-gpg-keystates', {})['byte_mutations'] = {'tried': len(pos), 'rejected': rejected}
+                # 2b. the same through ManifestFile.load: line-level changes of the signed part (an empty or blank line inserted or removed,
+                #     a line duplicated or dropped) are rejected; a signed text that contains empty lines itself loads
+                import gemato.manifest as gm
+                plain2 = ('TIMESTAMP 2017-10-22T18:06:41Z\n\nDATA a 2 SHA1 ' + hashlib.sha1(b'a\n').hexdigest() + '\n \nIGNORE x\\x20y\n')
+                rc2, signed2, _ = signer.clearsign(plain2)
+                lines_tried = lines_rejected = 0
+                for base_text in ([signed, signed2] if rc2 == 0 else [signed]):
+                    ls = base_text.split('\n')
+                    b0 = ls.index('') + 1
+                    b1 = ls.index('-----BEGIN PGP SIGNATURE-----')
+                    variants = [(None, base_text)]
+                    for j in range(b0, b1 + 1):
+                        variants.append((f'empty line inserted before line {j}', '\n'.join(ls[:j] + [''] + ls[j:])))
+                        if j < b1:
+                            variants.append((f'line {j} removed', '\n'.join(ls[:j] + ls[j + 1:])))
+                            variants.append((f'line {j} duplicated', '\n'.join(ls[:j] + [ls[j]] + ls[j:])))
+                    for what, t in variants:
+                        m = gm.ManifestFile()
+                        try:
+                            with impl.text_file(t) as f:
+                                m.load(f, verify_openpgp=True, openpgp_env=env)
+                            ok = bool(m.openpgp_signed)
+                        except Exception:
+                            ok = False
+                        n += 1
+                        lines_tried += 1
+                        if what is None and not ok:
+                            ctx.violation('spec', 'a correctly signed Manifest (with empty lines in the signed part) is not accepted', {'text': t})
+                        elif what is not None and ok:
+                            ctx.violation('spec', f'signed part changed ({what}) but the Manifest loads as signed', {'change': what, 'text': t})
+                        lines_rejected += (not ok)
+                ctx.cov['engines'].setdefault('pgp:real-gpg-keystates', {})['line_mutations_through_load'] = {'tried': lines_tried, 'rejected': lines_rejected}
             # 3. CLI: -K isolation against the user's own keyring; -s / -P
             td = tempfile.mkdtemp(prefix='gv-c05-')
             try:
